@@ -65,10 +65,6 @@ func refOnlyFiveRefs(s string) bool {
 	return ok
 }
 
-func refHasPrefix(s, p string) bool {
-	return len(s) >= len(p) && s[:len(p)] == p
-}
-
 func vHarness_C10_escaped() {
 	n := vParam("n")
 	s := vNondetString("s", n)
